@@ -27,6 +27,7 @@ def random_model(rng):
     strand = rng.choice(["+", "-"])
     ng = rng.choice([1, 1, 2])
     n = 0
+    both = rng.random() < 0.15      # exons that name their transcript AND its gene as Parent: related to the gene at level 1 and at level 2
     for g in range(ng):
         gid = "g%d" % g
         gs = rng.randint(1, 20) + 100 * g
@@ -42,12 +43,15 @@ def random_model(rng):
                     s = ex[-1]["start"] + 1          # equal starts would leave the order of the blocks to SQL's tie-breaking
                 ee = s + rng.randint(0, 6)
                 n += 1
-                attrs = [("ID", ["e%d" % n]), ("Parent", [tid]), ("exon_number", [str(rng.randint(1, 12))])]
+                attrs = [("ID", ["e%d" % n]), ("Parent", [tid, gid] if both else [tid]), ("exon_number", [str(rng.randint(1, 12))])]
                 if rng.random() < 0.3:
                     attrs.append(("Note", [rng.choice(["x", "y"])]))
                 ex.append(G.feat("exon", s, ee, attrs, strand=strand))
                 pos = ee + 1
             cds = []
+            if ex and rng.random() < 0.2:      # children whose type only LOOKS like exon / CDS (other letter case): never blocks, never thick
+                n += 1
+                cds.append(G.feat(rng.choice(["Exon", "cds", "EXON"]), ex[0]["start"] + 1000, ex[0]["start"] + 1003, [("ID", ["z%d" % n]), ("Parent", [tid])], strand=strand))
             for c in ex[: rng.choice([0, 1, 2])]:
                 n += 1
                 cds.append(G.feat("CDS", c["start"], c["end"], [("ID", ["c%d" % n]), ("Parent", [tid])], strand=strand))
